@@ -68,7 +68,10 @@ def computeMargins (p : Params) (s : TM) (iters : Option Int) (recompute : Bool)
 def initMargins (p : Params) (dflt : Bool) : List Rat :=
   if p.constantDt then
     let interior := (p.schedule.drop 1).dropLast
-    (arange p.timeInit (p.timeFinal + p.dtInit) p.dtInit).flatMap (fun v =>
+    -- number of simulated times = ceil(q): distance of q to the nearest integer
+    let q := (p.timeFinal + p.dtInit - p.timeInit) / p.dtInit
+    let dq := if q - (q.floor : Rat) < (q.ceil : Rat) - q then q - (q.floor : Rat) else (q.ceil : Rat) - q
+    relTo dq q q :: (arange p.timeInit (p.timeFinal + p.dtInit) p.dtInit).flatMap (fun v =>
       let ss := (interior.filter (fun x => decide (x < v))).length
       [mClose p.rtol p.atol (p.schedule.getD ss 0) v, mClose p.rtol p.atol (p.schedule.getD (ss + 1) 0) v])
   else
